@@ -17,4 +17,5 @@ def run(ctx, res):
             res.count("C15 E3 obligations")
             res.oblige(rec["desc"], rec["ok"], detail=rec.get("detail"), key="C15.E3:%s" % rec["key"], loc=rec["loc"],
                        rule="E3 abstract interpretation", msg="not proved: %s" % rec["desc"])
+    res.floor("C15 E3 obligations", res.instances.get("C15 E3 obligations", 0), 60)
     res.trusted.append("lmv/absmodels.py; premise P-list")
